@@ -25,6 +25,8 @@ def use_repo():
     if sys.path[0] != REPO:
         sys.path.insert(0, REPO)
     os.environ.setdefault("GPYTORCH_VERIF", "1")
+    os.environ.setdefault("OMP_NUM_THREADS", "2")
+    os.environ.setdefault("MKL_NUM_THREADS", "2")
 
 
 def seed():
